@@ -176,7 +176,9 @@ def readOrder (levels : List (List Tbl)) : List Tbl :=
 Executable safety test for a change set against the current layout (the "safe family" of C18):
 1. the added runs are exactly the merge of the removed tables (newest first), cut into non-empty chunks
    (an empty single chunk is allowed when nothing remains);
-2. within level 0 the removed tables are the *oldest* ones (a prefix in insertion order);
+2. within level 0 no table that stays is *older* (earlier in insertion order) than a removed table that shares a
+   key with it (an insertion-order prefix satisfies this; so does the age-ordered pick on a level 0 appended from
+   several checkpoints, whose sources hold disjoint keys);
 3. every level strictly between the shallowest removed level and the target is removed entirely, the target
    level is removed entirely (so the added tables form the whole target level, sorted and disjoint), and every
    non-removed table above the target that lies below a removed one cannot exist by (2)/(3);
@@ -186,15 +188,15 @@ def safeCS (levels : List (List Tbl)) (rm : List Nat) (lvl : Nat) (add : List Ru
   let removed := (readOrder levels).filter (fun t => rm.contains t.id)
   let merged := mergeAll (removed.map (·.run))
   let l0 := levels.headD []
-  let l0Removed := l0.filter (fun t => rm.contains t.id)
   let shallow := (List.range levels.length).find? (fun i => (levels.getD i []).any (fun t => rm.contains t.id))
   match shallow with
   | none => add.isEmpty
   | some sh =>
     decide (add.flatten = merged) &&
     (add.all (fun r => !r.isEmpty) || decide (add = [[]])) &&
-    -- level 0: removed tables are a prefix in age order
-    decide (l0Removed.map (·.id) = (l0.take l0Removed.length).map (·.id)) &&
+    -- level 0: no kept table older than a removed one shares a key with it
+    decide (l0.Pairwise (fun older newer => rm.contains newer.id = true → rm.contains older.id = false →
+      ∀ en ∈ newer.run, ∀ eo ∈ older.run, en.key ≠ eo.key)) &&
     -- target not above any removed table, target ≥ 1
     decide (1 ≤ lvl) && decide (lvl < levels.length) &&
     (List.range levels.length).all (fun i =>
